@@ -357,8 +357,14 @@ fn payload(cell: Cell, market: &str, chan_id: u32, trades: &[TradeGen], nth: u64
             (json!({"e":"trade","E":ms,"s":market,"t":t0.id,"p":e.price,"q":e.amount,"b":1,"a":2,"T":ms,"m":!t0.buy,"M":true}).to_string(), vec![e])
         }
         BinanceSpotL1 | BinanceFutL1 => {
-            let (bp, ba) = (dec_str(t0.price_m, t0.price_s), dec_str(t0.amount_m, t0.amount_s));
-            let (ap, aa) = (dec_str(t0.price_m + 1 + t0.id % 50, t0.price_s), dec_str(t0.amount_m + 3, t0.amount_s));
+            let (mut bp, mut ba) = (dec_str(t0.price_m, t0.price_s), dec_str(t0.amount_m, t0.amount_s));
+            let (mut ap, mut aa) = (dec_str(t0.price_m + 1 + t0.id % 50, t0.price_s), dec_str(t0.amount_m + 3, t0.amount_s));
+            // a one-sided book (thin / newly listed market): the venue states price 0 for the empty side
+            match t0.id % 7 {
+                0 => (bp, ba) = ("0".to_string(), "0".to_string()),
+                1 => (ap, aa) = ("0".to_string(), "0".to_string()),
+                _ => {}
+            }
             let mut e = mk(t0);
             e.l1 = Some((bp.clone(), ba.clone(), ap.clone(), aa.clone()));
             e.time_ms = if cell == BinanceFutL1 { e.time_ms } else { None };
@@ -484,7 +490,8 @@ impl KindCheck for Liquidations {
 impl KindCheck for OrderBooksL1 {
     fn check(ev: &OrderBookL1, e: &Expect) -> Result<(), String> {
         let (bp, ba, ap, aa) = e.l1.as_ref().expect("l1 expectation");
-        let lvl = |l: &Option<Level>, p: &str, a: &str| l.is_some_and(|l| d_eq(l.price, p) && d_eq(l.amount, a));
+        // a side stated with price 0 is an empty side
+        let lvl = |l: &Option<Level>, p: &str, a: &str| if p == "0" { l.is_none() } else { l.is_some_and(|l| d_eq(l.price, p) && d_eq(l.amount, a)) };
         if lvl(&ev.best_bid, bp, ba) && lvl(&ev.best_ask, ap, aa) {
             Ok(())
         } else {
@@ -1084,7 +1091,7 @@ impl Check for IndexedSubscriptions {
 }
 
 pub fn run(ctx: &mut Ctx) {
-    ctx.rule = "attribution: a (connector, kind) pair out of the 21 the dynamic builder supports x an instrument form (MarketDataInstrument / Keyed<K,_> / MarketInstrumentData<K>) x 2..5 instruments with names from an adversarial pool (mixed case, digits, shared prefixes: btc/btcu/usd/usdt/usdc/1inch/xbt/t/sd ...) and kinds legal for the venue (expiries incl. year-boundary dates and expiry instants at 00:00 / 08:00 / 16:00 / 23:59:59 UTC, strikes incl. fractional ones such as 0.33 / 1.5 / 35000.5, call/put for Gateio/OKX futures and options); in a quarter of the cases 1..2 subscriptions appear a second time in the batch handed to the mapper (not for Bitfinex) x 1..7 messages each for a subscribed market or an unsubscribed look-alike (35%; incl. the subscribed market's name in the other letter case), 1..3 trades per message on batching venues. Venue market strings and payload schemas come from an independent table written from the venue formats the repo documents. Pairs of instruments whose venue market strings coincide are dropped (counted). non-trivial = >= 2 subscribed instruments sharing a prefix AND both a hit and a miss message; every one of the 63 (connector, kind, form) cells must be exercised or the run is inconclusive. indexed_subscriptions: 0..5 instrument definitions over 1..3 exchanges plus a chain of 0..6 futures / options on two underlyings (3 expiries, call/put, 3 strikes); generate_indexed_market_data_subscription_batches must give every instrument one subscription per kind carrying its own index, and index_market_data_subscription_batches must give each unindexed subscription (handed over in a generated order, in two batches) the index of exactly the instrument it was derived from; definitions that differ only in settlement asset / quantity unit are indistinguishable in the market-data form and set aside (counted). non-trivial = >= 3 subscriptions incl. two futures or two options on one underlying.".into();
+    ctx.rule = "attribution: a (connector, kind) pair out of the 21 the dynamic builder supports x an instrument form (MarketDataInstrument / Keyed<K,_> / MarketInstrumentData<K>) x 2..5 instruments with names from an adversarial pool (mixed case, digits, shared prefixes: btc/btcu/usd/usdt/usdc/1inch/xbt/t/sd ...) and kinds legal for the venue (expiries incl. year-boundary dates and expiry instants at 00:00 / 08:00 / 16:00 / 23:59:59 UTC, strikes incl. fractional ones such as 0.33 / 1.5 / 35000.5, call/put for Gateio/OKX futures and options); in a quarter of the cases 1..2 subscriptions appear a second time in the batch handed to the mapper (not for Bitfinex) x 1..7 messages each for a subscribed market or an unsubscribed look-alike (35%; incl. the subscribed market's name in the other letter case), 1..3 trades per message on batching venues; two in seven Binance top-of-book messages are one-sided (price 0 on the empty side ⇒ that side absent). Venue market strings and payload schemas come from an independent table written from the venue formats the repo documents. Pairs of instruments whose venue market strings coincide are dropped (counted). non-trivial = >= 2 subscribed instruments sharing a prefix AND both a hit and a miss message; every one of the 63 (connector, kind, form) cells must be exercised or the run is inconclusive. indexed_subscriptions: 0..5 instrument definitions over 1..3 exchanges plus a chain of 0..6 futures / options on two underlyings (3 expiries, call/put, 3 strikes); generate_indexed_market_data_subscription_batches must give every instrument one subscription per kind carrying its own index, and index_market_data_subscription_batches must give each unindexed subscription (handed over in a generated order, in two batches) the index of exactly the instrument it was derived from; definitions that differ only in settlement asset / quantity unit are indistinguishable in the market-data form and set aside (counted). non-trivial = >= 3 subscriptions incl. two futures or two options on one underlying.".into();
     ctx.assumptions = vec![
         "venues behave as their documented formats say (market strings, payload shapes, Bitfinex channel-id assignment in `subscribed` replies)".into(),
         "prices/amounts compared as the parsed decimal strings (f64 fields within 1e-12 relative); exchange time within 1 ms; Bitfinex / Gateio-futures sign-encoded amounts compared by magnitude".into(),
